@@ -80,7 +80,14 @@ def build_router(pt, rc: dict):
             # the decorator takes the plain python function
             router.method(h.subroutine.implementation if False else _plain_fn(pt, m), name=m.get("override"), **kw)
         else:
+            if m.get("presig"):
+                # a pure inspection of the handler before it is registered under another name
+                h.method_signature()
+                h.name()
             router.add_method_handler(h, overriding_name=m.get("override"), method_config=method_config(pt, m["config"]) if m.get("config") is not None else None)
+            if m.get("alias"):
+                # the same handler object registered once more under a second name
+                router.add_method_handler(h, overriding_name=m["alias"], method_config=method_config(pt, m["config"]) if m.get("config") is not None else None)
     return router
 
 
@@ -130,7 +137,10 @@ def expected_handler(rc: dict, args: List[bytes], oc: int, create: bool) -> Opti
             return "bare_" + ocname
         return None
     for m in rc.get("methods", []):
-        if args[0] == selector(registered_signature(m)):
+        sels = [selector(registered_signature(m))]
+        if m.get("alias") and m.get("via") != "decorator":
+            sels.append(selector(method_signature(dict(m, name=m["alias"]))))
+        if args[0] in sels:
             cfg = m["config"] if m.get("config") is not None else {"no_op": "CALL"}
             if allows(cfg.get(ocname, "NEVER"), create):
                 return m["name"]
